@@ -1,7 +1,33 @@
 From Coq Require Import List Arith ZArith.
 Import ListNotations.
-From UJ Require Import Cache.Logical.
+From UJ Require Import Cache.Logical Cache.RunProofs Cache.HistoryProofs.
 
-Theorem C08_placeholder_wf : forall p : plan, p = [] -> wf_plan p.
-Proof. intros p -> i nd H. destruct i; discriminate. Qed.
-Print Assumptions C08_placeholder_wf.
+(** Whatever subset [w] of a run's store writes took effect before the run was cut (each write is
+    all-or-nothing: C11), every stored value that a later run would treat as up to date still equals
+    its from-scratch value. *)
+Theorem C08_cut_preserves_inv :
+  forall (F : nat -> list Z -> Z) (reg : registry) (p : plan),
+  wf_plan p -> reg_inj reg -> reg_dom reg p ->
+  forall (sg : sstate) (fresh : option Z) (tw : nat -> Z) (w : nat -> bool),
+  Inv F reg p sg -> sources_present reg sg -> tw_ok sg tw ->
+  Inv F reg p (after_cut F reg sg fresh p tw w).
+Proof. exact cut_preserves_inv. Qed.
+Print Assumptions C08_cut_preserves_inv.
+
+(** Hence the next complete run (after any further history) is correct: C03 quantifies over histories
+    that contain cut runs ([OCut]). *)
+Theorem C08_next_run_correct :
+  forall (F : nat -> list Z -> Z) (reg : registry) (p : plan),
+  wf_plan p -> reg_inj reg -> reg_dom reg p ->
+  forall (ops : list op) (fresh : option Z) (output : option nat) (tw : nat -> Z),
+  ops_ok F reg p (fun _ : nat => None) ops ->
+  let sg := apply_ops F reg p (fun _ : nat => None) ops in
+  sources_present reg sg ->
+  let sg' := after_run F reg sg fresh p tw in
+  (forall (n : nat) (e : rentry), reg n = Some e -> is_src e = false ->
+     content sg' (store e) = scratch F reg sg' p n) /\
+  (forall (n : nat) (e : rentry), reg n = Some e -> is_src e = true ->
+     content sg' (store e) = content sg (store e)) /\
+  (forall o : nat, output = Some o -> run_output F reg sg fresh output p = scratch F reg sg p o).
+Proof. exact incremental_eq_scratch. Qed.
+Print Assumptions C08_next_run_correct.
